@@ -94,3 +94,54 @@ def _(self: Obj(BeeKIB), kib_key: Optional[Bytes(16)], kib_iv: Optional[Bytes(16
     ensures(self.kib_iv == kib_iv if kib_iv is not None else fresh_in_call(self.kib_iv) and len(self.kib_iv) == 16, label="iv-given-or-fresh")
     modifies(self.kib_key, self.kib_iv)
     sample_with(lambda rnd: {"self": object.__new__(BeeKIB), "kib_key": rnd.choice([None, bytes(16)]), "kib_iv": rnd.choice([None, bytes(16)])})
+
+
+# ---- BEE: every engine header gets its own invented key-info block ------------------------------------------------------------
+from spsdk.image.bee import BeeNxp  # noqa: E402
+from spsdk.utils.misc import load_binary, load_hex_string  # noqa: E402
+
+
+@assumed("spsdk.utils.misc:load_binary", reason="file system access; returns the file content")
+def _(path: Opaque(), search_paths: Opaque()) -> bytes:
+    pass
+
+
+@assumed("spsdk.utils.misc:load_hex_string", reason="string/file front end; with a source given it returns the user's bytes of the expected size")
+def _(source: Opaque(), expected_size: OneOf(16), search_paths: Opaque(), name: Opaque()) -> bytes:
+    requires(source is not None)
+    ensures(len(result) == expected_size)
+
+
+@contract("spsdk.image.bee:BeeProtectRegionBlock.__init__")
+def _(self: Obj(BeeProtectRegionBlock), encr_mode: Opaque(), lock_options: Opaque(), counter: Optional[Bytes(16)]):
+    ensures(self.counter == counter if counter is not None else fresh_in_call(self.counter[:12]) and self.counter[12:] == bytes(4) and len(self.counter) == 16,
+            label="counter-given-or-fresh")
+    modifies(self._start_addr, self._end_addr, self.mode, self.lock_options, self.counter, self.fac_regions)
+    sample_with(lambda rnd: {"self": object.__new__(BeeProtectRegionBlock), "encr_mode": BeeProtectRegionBlockAesMode.CTR, "lock_options": 0,
+                             "counter": rnd.choice([None, bytes(16)])})
+
+
+inline("spsdk.image.bee:BeeRegionHeader.__init__", "spsdk.image.bee:BeeNxp.__init__", "spsdk.image.bee:BeeProtectRegionBlock.__init__",
+       "spsdk.image.bee:BeeKIB.__init__", "spsdk.image.bee:BeeBaseClass.__init__")
+ENGINE = DictOf(bee_cfg=DictOf(user_key=Const("0123456789abcdeffedcba9876543210")))
+
+
+@contract("spsdk.image.bee:BeeNxp.load_from_config")
+def _(config: DictOf(input_binary=Const("app.bin"), engine_selection=Const("both"), bee_engine=ListOf(ENGINE, 2), base_address=Const(0x60001000)),
+      search_paths: Const(None)) -> Opaque():
+    ensures(drawn_tick(result.headers[0]._kib.kib_key) >= 0 and drawn_tick(result.headers[1]._kib.kib_key) >= 0
+            and drawn_tick(result.headers[0]._kib.kib_key) != drawn_tick(result.headers[1]._kib.kib_key),
+            label="each-engine-header-has-its-own-invented-KIB-key")
+    ensures(drawn_tick(result.headers[0]._kib.kib_iv) >= 0 and drawn_tick(result.headers[1]._kib.kib_iv) >= 0
+            and drawn_tick(result.headers[0]._kib.kib_iv) != drawn_tick(result.headers[1]._kib.kib_iv),
+            label="each-engine-header-has-its-own-invented-KIB-IV")
+    sample_with(lambda rnd: _bee_cfg())
+
+
+def _bee_cfg():
+    import os, tempfile
+    d = tempfile.mkdtemp(prefix="vf-bee-")
+    open(os.path.join(d, "app.bin"), "wb").write(bytes(64))
+    eng = {"bee_cfg": {"user_key": "0123456789abcdeffedcba9876543210"}}
+    return {"config": {"input_binary": os.path.join(d, "app.bin"), "engine_selection": "both", "bee_engine": [eng, dict(eng)], "base_address": 0x60001000},
+            "search_paths": None}
